@@ -46,7 +46,7 @@ def generate(r, tier):
     prog = kgen.gen_program(r, lo=2, hi=22 if big else 10)
     sc = {"prog": prog, "parser": kgen.pick_parser(r, prog, 0.05), "hash_salt": r.getrandbits(32),
           "chunk": r.choice([4, 16, 16, 64, 8192])}
-    sc["prog2"] = kgen.evolve(r, prog) if r.random() < 0.3 else None
+    sc["prog2"] = kgen.evolve(r, prog, remove_mentioned=0.5) if r.random() < 0.3 else None
     if sc["prog2"] and not kgen.v2_ok(sc["prog2"]):
         sc["parser"] = 1
     sc["renames"], _ = kgen.rename_table(r, prog) if r.random() < 0.4 else (None, [])
